@@ -232,6 +232,12 @@ func VerifC19_Purge() {
 		n = 6
 	}
 	cnt := rt.Len("n", 3, n)
+	// (with an index that downloads automatically and the registry online,
+	// versions that are not on disk are selectable - not kept files; quick
+	// tier: with four versions)
+	if (cnt == 4 || rt.Thorough()) && rt.Bool("auto-download-index") {
+		res.Index = &Index{AutoDownload: true}
+	}
 	// versions known from an index only are not on disk: none, or a run of one
 	// or two versions anywhere in the list (thorough: any subset)
 	gapAt, gapLen := cnt, 2
